@@ -14,7 +14,7 @@ namespace viewsim {
 template <bool OK> struct Gate { template <class F, class X> static void run(F &&f, X &x) { f(x); } };
 template <> struct Gate<false> { template <class F, class X> static void run(F &&, X &) {} };
 
-enum Kind : uint32_t { K_DYN_WRITE = 0, K_ELEM_WRITE = 1, K_DYN_ALIAS = 2, K_H_CREATE = 3, K_H_NOALIAS = 4, K_H_ASSIGN = 5, K_IDX_ALIAS = 6, K_MASK_ALIAS = 7, K_DIAG = 8, K_BAD_ELEM = 9, K_BOOL_WRITE = 10, K_FIX_BASE = 16 };
+enum Kind : uint32_t { K_DYN_WRITE = 0, K_ELEM_WRITE = 1, K_DYN_ALIAS = 2, K_H_CREATE = 3, K_H_NOALIAS = 4, K_H_ASSIGN = 5, K_IDX_ALIAS = 6, K_MASK_ALIAS = 7, K_DIAG = 8, K_BAD_ELEM = 9, K_BOOL_WRITE = 10, K_FLAT_WRITE = 11, K_FIX_BASE = 16 };
 enum { NHANDLES = 3 };
 
 template <class T, size_t... D> struct Uni;
@@ -419,6 +419,49 @@ template <class T, size_t... D> struct Uni : UniverseBase {
         cx.info->sig = mix2(mix2(0xb001, ck), ((uint64_t)form << 8) | (uint64_t)(d.s[R - 1] * 4 + (d.ext[R - 1] % 4)));
         if (cx.cnt && BOOL_OK) cx.cnt->bump("probe/bool-destination comparison assignment");
         bool_finish(cx, o, "bool_write", d, cx.info->desc);
+    }
+
+    // ---------------------------------------------------------------- K_FLAT_WRITE (C05): F(1-D slice) op= g(B(n-d slice)), rank >= 2 universes.
+    // The n-d source is consumed through its FLAT-index evaluator (eval<T>(i): a gather for non-contiguous selections), which a destination
+    // of the source's own rank never calls. F is restored afterwards, so that it stays the constant power-of-two cell the other kinds rely on.
+    void flat_write(const Step &st, StepCtx &cx) {
+        int op = (int)(st.a[A_OP] % 5); uint32_t rk = st.a[A_RHS] % 3; if (op == 4) rk = 0;
+        Sel<R> s1, s2; decode_sel(st, A_D0, 9, s1, (st.a[A_FORM] & 1) != 0); decode_src(st, A_S0, s1, s2, 2);
+        seq q1[4] = {seq(0, 1), seq(0, 1), seq(0, 1), seq(0, 1)}, q2[4] = {seq(0, 1), seq(0, 1), seq(0, 1), seq(0, 1)}; int fixi[4] = {0, 0, 0, 0};
+        for (int k = 0; k < R; ++k) { q1[k] = seq(s1.f[k], s1.l[k], s1.s[k]); q2[k] = seq(s2.f[k], s2.l[k], s2.s[k]); }
+        const int n = s1.size(); int fstep = 1 + (int)(st.a[A_S0 + 2] % 2); if ((n - 1) * fstep >= SZ) fstep = 1;
+        const int foff = (int)(st.a[A_S0 + 1] % (uint32_t)(SZ - (n - 1) * fstep)); seq fq(foff, foff + (n - 1) * fstep + 1, fstep);
+        T cst = smallval<T>(st.a[A_VAL]);
+        std::vector<T> sF0 = sF, expF = sF; std::vector<char> insel(SZ, 0); bool changed = false;
+        for (int qi = 0; qi < n; ++qi) { int di = foff + qi * fstep; T x = sB[s1.at(dims, qi)];
+            T r = rk == 0 ? x : (rk == 1 ? (T)(x * (T)2 + sC[s2.at(dims, qi)]) : (T)(cst - x));
+            expF[di] = apply_op<T>(op, sF[di], r); insel[di] = 1; if (memcmp(&expF[di], &sF[di], sizeof(T))) changed = true; }
+        Ten &b = *B, &c = *C; Flat &fl = *F;
+        Outcome o = window([&] {
+            switch (rk) {
+            case 0: do_assign(op, fl(fq), MkView<R>::mk(b, q1, fixi, 0)); break;
+            case 1: do_assign(op, fl(fq), MkView<R>::mk(b, q1, fixi, 0) * (T)2 + MkView<R>::mk(c, q2, fixi, 0)); break;
+            default: do_assign(op, fl(fq), cst - MkView<R>::mk(b, q1, fixi, 0)); break;
+            }
+        }, failalloc);
+        char ss[80]; describe_sel(ss, sizeof ss, s1);
+        snprintf(cx.info->desc, sizeof cx.info->desc, "F(%d:%d:%d) %s g%u(B(%s)) [rank-%d source, flat evaluator]", foff, foff + (n - 1) * fstep + 1, fstep, OPNAME[op], rk, ss, R);
+        cx.info->nontrivial = changed && n < SZ;
+        cx.info->sig = mix2(mix2(0xf1a7, ((uint64_t)op << 8) | rk), ((uint64_t)(n % 16) << 8) | (uint64_t)(s1.s[R - 1] * 4 + fstep));
+        if (cx.cnt) cx.cnt->bump(std::string("probe/flat evaluator of an n-d source: ") + ((fstep == 1 && n >= LANES) ? "vector body" : "scalar"));
+        if (o.kind == 0) {
+            cx.h->bytes(F->data(), sizeof(T) * SZ);
+            if (memcmp(F->data(), expF.data(), sizeof(T) * SZ) != 0) {
+                int bad_in = -1, bad_out = -1; for (int i = 0; i < SZ; ++i) if (memcmp(&F->data()[i], &expF[i], sizeof(T)) != 0) { if (insel[i]) { if (bad_in < 0) bad_in = i; } else if (bad_out < 0) bad_out = i; }
+                if (bad_out >= 0) cx.v->set(cx.si, "frame/flat_write", cx.opname, "%s: %s changed NON-selected element %d of F: got %.17g expected %.17g", cx.opname, cx.info->desc, bad_out, (double)F->data()[bad_out], (double)expF[bad_out]);
+                else cx.v->set(cx.si, "value/flat_write", cx.opname, "%s: %s selected element %d of F: got %.17g expected %.17g", cx.opname, cx.info->desc, bad_in, (double)F->data()[bad_in], (double)expF[bad_in]);
+                for (int i = 0; i < SZ; ++i) F->data()[i] = sF0[i];
+                return;
+            }
+            sF = expF;
+        }
+        expA = sA; finish(cx, o, "flat_write", nullptr, cx.info->desc);
+        sF = sF0; for (int i = 0; i < SZ; ++i) F->data()[i] = sF0[i];
     }
 
     // ---------------------------------------------------------------- K_ELEM_WRITE (C05): A(i,j,..) op= v with negative indices
